@@ -76,12 +76,12 @@ impl Case {
 fn has_any_typed_array(text: &str) -> bool {
     let cs: Vec<char> = text.chars().collect();
     // stack of element-kind sets of the open brackets
-    let mut stack: Vec<(std::collections::BTreeSet<char>, usize)> = vec![];
+    let mut stack: Vec<(std::collections::BTreeSet<String>, usize)> = vec![];
     let mut i = 0;
     let mut found = false;
-    let note = |stack: &mut Vec<(std::collections::BTreeSet<char>, usize)>, k: char| {
+    let note = |stack: &mut Vec<(std::collections::BTreeSet<String>, usize)>, k: &str| {
         if let Some(top) = stack.last_mut() {
-            top.0.insert(k);
+            top.0.insert(k.to_string());
             top.1 += 1;
         }
     };
@@ -112,14 +112,16 @@ fn has_any_typed_array(text: &str) -> bool {
                 if kinds.len() > 1 || n == 0 {
                     found = true;
                 }
-                note(&mut stack, 'a');
+                // an array of integers and an array of numbers are elements of different kinds too
+                let kind = format!("a<{}>", kinds.into_iter().collect::<Vec<_>>().join(","));
+                note(&mut stack, &kind);
             }
         } else if c == '"' {
             i += 1;
             while i < cs.len() && cs[i] != '"' {
                 i += 1;
             }
-            note(&mut stack, 's');
+            note(&mut stack, "s");
         } else if c.is_ascii_digit() && !stack.is_empty() {
             let mut float = false;
             while i + 1 < cs.len() && (cs[i + 1].is_ascii_digit() || cs[i + 1] == '.') {
@@ -128,18 +130,46 @@ fn has_any_typed_array(text: &str) -> bool {
                 }
                 i += 1;
             }
-            note(&mut stack, if float { 'f' } else { 'i' });
+            note(&mut stack, if float { "f" } else { "i" });
         } else if c.is_alphabetic() && !stack.is_empty() {
             let st = i;
             while i + 1 < cs.len() && cs[i + 1].is_alphanumeric() {
                 i += 1;
             }
             let w: String = cs[st..=i].iter().collect();
-            note(&mut stack, if w == "true" || w == "false" { 'b' } else { 'n' });
+            note(&mut stack, if w == "true" || w == "false" { "b" } else { "n" });
         }
         i += 1;
     }
     found
+}
+
+/// `x_7` (or `x_j` with `j` bound to nothing, which is the literal name `x_j`) when the program
+/// declares a family `x_i as ... for i in ...` with that many indexes: which members a family has
+/// is data (the length of an array, the nodes of a graph), so a missing member is the indexed
+/// counterpart of "index out of range", not a statically undeclared variable.
+fn missing_member_of_declared_family(e: &TransformError, src: &str) -> bool {
+    let TransformError::UndeclaredVariable(name) = e.base_error() else { return false };
+    if std::env::var("VERIF_C19_NOFAMILY").is_ok() {
+        return false;
+    }
+    let shape = |n: &str| -> Option<(String, usize)> {
+        let n = n.trim().trim_start_matches('\\');
+        let mut parts = n.split('_');
+        let head = parts.next()?.to_string();
+        let count = parts.count();
+        if head.is_empty() || count == 0 {
+            None
+        } else {
+            Some((head, count))
+        }
+    };
+    let Some(wanted) = shape(name) else { return false };
+    let Some(define) = src.split("\ndefine").nth(1) else { return false };
+    define.lines().any(|line| match line.split(" as ").next() {
+        Some(vars) if line.contains(" as ") && line.contains(" for ") => vars.split(',').any(|v| shape(v) == Some(wanted.clone())),
+        _ => false,
+    })
 }
 
 fn numeric(k: &PrimitiveKind) -> bool {
@@ -218,6 +248,7 @@ impl Prop for C19 {
             8 => (any::<u16>(), any::<u16>()).prop_map(|(at, with)| Mutation::Replace { at, with }),
             1 => (any::<u16>(), any::<u16>()).prop_map(|(at, with)| Mutation::Insert { at, with }),
             1 => any::<u16>().prop_map(|at| Mutation::Swap { at }),
+            1 => any::<u16>().prop_map(|at| Mutation::GrowTuple { at }),
         ];
         (base, proptest::collection::vec(m, 0..=3)).prop_map(|(base, muts)| Case { base, muts }).boxed()
     }
@@ -231,7 +262,7 @@ impl Prop for C19 {
         serde_json::to_string(&c.text()).unwrap()
     }
     fn rule(&self) -> String {
-        "well-typed programs (C06's data-driven pieces, C03's typed models, two literal programs using every builtin) whose operand, index, bound, iterator and argument tokens are replaced by values of other kinds (numbers, strings, booleans, arrays of every element kind incl. mixed and empty, nested arrays, graphs, named constants of every kind), by builtin calls with right and wrong arity and argument kinds, by unknown functions and undeclared names; up to three replacements / insertions / swaps per program. Whenever type_check accepts the program, transform must not fail with a type-class error (wrong argument type or count, operator not applicable to its operand kinds, unspreadable / wrong-arity destructuring, unknown function, undeclared variable); data-dependent failures (index out of range, division by zero, too large, duplicate declaration, numeric casts that fail on the value) are allowed. Non-trivial = the checker accepted a mutated program that contains a function call or an iteration. Distinct = distinct program text.".into()
+        "well-typed programs (C06's data-driven pieces, C03's typed models, two literal programs using every builtin) whose operand, index, bound, iterator and argument tokens are replaced by values of other kinds (numbers, strings, booleans, arrays of every element kind incl. mixed and empty, nested arrays, graphs, named constants of every kind), by builtin calls with right and wrong arity and argument kinds, by unknown functions and undeclared names; up to three replacements / insertions / swaps per program. Whenever type_check accepts the program, transform must not fail with a type-class error (wrong argument type or count, operator not applicable to its operand kinds, unspreadable / wrong-arity destructuring, unknown function, undeclared variable); data-dependent failures (index out of range, a missing member of a declared indexed family, division by zero, too large, duplicate declaration, numeric casts that fail on the value) are allowed. Non-trivial = the checker accepted a mutated program that contains a function call or an iteration. Distinct = distinct program text.".into()
     }
     fn check(&self, case: &Case) -> Outcome {
         let src = case.text();
@@ -249,7 +280,7 @@ impl Prop for C19 {
         let interesting = src.contains('(') && (src.contains(" in ") || src.contains("len("));
         match pre.transform(vec![], &fns) {
             Ok(_) => Outcome::Pass { nontrivial: mutated && interesting, labels: vec!["accepted-and-transformed".into()] },
-            Err(e) => match type_class(&e) {
+            Err(e) => match type_class(&e).filter(|_| !missing_member_of_declared_family(&e, &src)) {
                 None => Outcome::Pass { nontrivial: mutated && interesting, labels: vec!["accepted:data-dependent-failure".into()] },
                 Some(kind) => {
                     // the recorded limitation: values whose static kind is Any (elements of mixed or
